@@ -39,6 +39,10 @@ type c05Job struct {
 	// code there, else the case is skipped); the rest of the prefix follows, then the same bytes are submitted
 	// again in the state in which they would succeed
 	Early int `json:",omitempty"`
+	// Mid: phase "checked again inside its own block" - the original goes through CheckTx and is delivered as
+	// usual; between its DeliverTx and the EndBlock of that block the same bytes reach CheckTx once more (a peer
+	// gossiping it; the index cannot know the execution yet); two blocks later they are delivered again
+	Mid bool `json:",omitempty"`
 }
 
 type c05Res struct {
@@ -407,6 +411,9 @@ func c05Exec(j c05Job) c05Res {
 	if j.Early > 0 {
 		return c05EarlyFailed(j, orig)
 	}
+	if j.Mid {
+		return c05MidBlockCheck(j, orig)
+	}
 	// (2) execute T, wait, resubmit
 	first, second := orig, wire
 	run := func(resubmit bool) (digests []string, out c05Res, err error) {
@@ -605,6 +612,80 @@ func c05EarlyFailed(j c05Job, orig []byte) c05Res {
 	return out
 }
 
+// c05MidBlockCheck: see c05Job.Mid. (Added after a seeded change - CheckTx remembering the hashes it found
+// absent from the index so that DeliverTx need not look again - escaped the phases in which a transaction is
+// either checked or delivered after its execution, never checked in the window and delivered later.)
+func c05MidBlockCheck(j c05Job, orig []byte) c05Res {
+	run := func(resubmit bool) (digests []string, out c05Res, err error) {
+		hh, _ := buildHist(j.Scn, 0)
+		x, err := harness.StartRun(hh.W)
+		if err != nil {
+			return nil, out, err
+		}
+		defer x.Close()
+		for i, b := range noCheck(hh.Blocks[:hh.Target]) {
+			if _, err := x.Block(b); err != nil {
+				return nil, out, fmt.Errorf("prefix block %d: %v", i+1, err)
+			}
+		}
+		var mid harness.TxRes
+		fb, err := x.BlockAt(harness.BlockSpec{Raw: [][]byte{orig}}, false, func(g harness.Gap) bool {
+			if g.Pos == 2 { // after the DeliverTx of the block's only transaction
+				mid = x.R.CheckTx(orig)
+			}
+			return true
+		})
+		if err != nil || fb == nil || len(fb.Txs) != 1 {
+			return nil, out, fmt.Errorf("executing the original: %v", err)
+		}
+		out.FirstCode = fb.Txs[0].Code
+		_ = mid
+		if _, err := x.Block(harness.BlockSpec{}); err != nil {
+			return nil, out, err
+		}
+		spec := harness.BlockSpec{NoCheck: true}
+		if resubmit {
+			spec.Raw = [][]byte{orig}
+		}
+		r, err := x.BlockAt(spec, true, nil)
+		if err != nil || r == nil {
+			return nil, out, fmt.Errorf("block with the second delivery: %v", err)
+		}
+		if resubmit && len(r.Txs) == 1 {
+			out.Code, out.Log = r.Txs[0].Code, tail(r.Txs[0].Log, 120)
+		}
+		digests = append(digests, r.Digest)
+		for n := 0; n < 2; n++ {
+			r, err := x.BlockAt(harness.BlockSpec{}, true, nil)
+			if err != nil {
+				return digests, out, nil
+			}
+			digests = append(digests, r.Digest)
+		}
+		return digests, out, nil
+	}
+	got, out, err := run(true)
+	if err != nil {
+		return c05Res{Err: err.Error()}
+	}
+	if out.FirstCode != 0 {
+		return c05Res{Skip: "the original did not execute successfully in this run"}
+	}
+	out.First = "checked-again-inside-its-block"
+	twin, _, err := run(false)
+	if err != nil {
+		return c05Res{Err: "twin: " + err.Error()}
+	}
+	for i := range twin {
+		if i >= len(got) || got[i] != twin[i] {
+			out.Replayed = true
+			out.Detail = fmt.Sprintf("executed, checked again before the end of its block, delivered again two blocks later (code %d): the state after block +%d differs from the twin without the second delivery", out.Code, i)
+			break
+		}
+	}
+	return out
+}
+
 func c05(args []string) int {
 	if explore.IsWorker("C05") {
 		return workerMain(func(raw json.RawMessage) interface{} {
@@ -663,6 +744,7 @@ func c05(args []string) int {
 				jobList = append(jobList, c05Job{Scn: sc.ID(), Op: 0, Name: "identical", Delay: 0, Path: path, Early: k})
 			}
 		}
+		jobList = append(jobList, c05Job{Scn: sc.ID(), Op: 0, Name: "identical", Delay: 2, Path: "deliver", Mid: true})
 		for _, mode := range []string{"plain", "prehash"} {
 			base := h.Blocks[h.Target].Txs[0]
 			if mode == "prehash" && (base.SignFn != nil || len(base.Signers) == 0 || base.Signers[0].Pub.KeyType != keys.ED25519) {
@@ -721,7 +803,7 @@ func c05(args []string) int {
 			skipReasons[k]++
 			return
 		}
-		distinct[fmt.Sprintf("%s|%s|%d|%s|%d|%s|%d", j.Scn, j.Name, j.Delay, j.Path, j.Lag, j.Sig, j.Early)] = true
+		distinct[fmt.Sprintf("%s|%s|%d|%s|%d|%s|%d|%v", j.Scn, j.Name, j.Delay, j.Path, j.Lag, j.Sig, j.Early, j.Mid)] = true
 		if j.Early > 0 {
 			earlyFailed++
 		}
